@@ -279,7 +279,16 @@ func (u *Unit) callBuiltin(st *State, name string, c *ast.CallExpr) []Val {
 			return []Val{s}
 		}
 		_ = isnil
-		return []Val{{T: u.mkSlice(s.So, arr, off, app("+", ln, strconv.Itoa(n)), "false"), Ty: rt, So: s.So}}
+		res := Val{T: u.mkSlice(s.So, arr, off, app("+", ln, strconv.Itoa(n)), "false"), Ty: rt, So: s.So}
+		if n == 1 && stype.Elem() != nil && isInterface(stype.Elem()) {
+			// ground terms for quantifier instantiation: the appended element read back, and
+			// reads of the old elements carried over to the result
+			st.assume(sEq(u.sliceAt(res, ln), app("select", arr, ln)))
+			u.nfresh++
+			i := fmt.Sprintf("ap!%d", u.nfresh)
+			st.assume(fmt.Sprintf("(forall ((%s Int)) (! (=> (and (<= 0 %s) (< %s %s)) (= %s %s)) :pattern (%s)))", i, i, i, ln, u.sliceAt(res, i), u.sliceAt(s, i), u.sliceAt(s, i)))
+		}
+		return []Val{res}
 	case "make":
 		switch t := rt.Underlying().(type) {
 		case *types.Slice:
@@ -374,6 +383,8 @@ func (u *Unit) appendSlice(st *State, s, t Val) Val {
 	i := fmt.Sprintf("ai!%d", u.nfresh)
 	st.assume(fmt.Sprintf("(forall ((%s Int)) (! (=> (and (<= 0 %s) (< %s %s)) (= %s %s)) :pattern (%s)))", i, i, i, sl, u.sliceAt(r, i), u.sliceAt(s, i), u.sliceAt(r, i)))
 	st.assume(fmt.Sprintf("(forall ((%s Int)) (! (=> (and (<= 0 %s) (< %s %s)) (= %s %s)) :pattern (%s)))", i, i, i, tl, u.sliceAt(r, app("+", sl, i)), u.sliceAt(t, i), u.sliceAt(t, i)))
+	// ... and triggered by reads of the prefix operand
+	st.assume(fmt.Sprintf("(forall ((%s Int)) (! (=> (and (<= 0 %s) (< %s %s)) (= %s %s)) :pattern (%s)))", i, i, i, sl, u.sliceAt(r, i), u.sliceAt(s, i), u.sliceAt(s, i)))
 	// the same fact, triggered by reads of the result
 	st.assume(fmt.Sprintf("(forall ((%s Int)) (! (=> (and (<= %s %s) (< %s (+ %s %s))) (= %s %s)) :pattern (%s)))", i, sl, i, i, sl, tl, u.sliceAt(r, i), u.sliceAt(t, app("-", i, sl)), u.sliceAt(r, i)))
 	return r
